@@ -33,6 +33,7 @@ func main() {
 		verif    = flag.String("verif", "/verif", "verification directory (evidence, known findings, replays)")
 		arch     = flag.String("arch", "", "GOARCH to analyse for (default: host)")
 		noEv     = flag.Bool("no-evidence", false, "do not write evidence (used by the sensitivity battery)")
+		dump     = flag.String("dump", "", "debug: print normal forms of <pkg-rel>:<func>")
 		overlays overlayFlag
 	)
 	flag.Var(&overlays, "overlay", "abs-file=replacement-file: analyse with this file replaced in memory")
@@ -40,6 +41,15 @@ func main() {
 	seed := 0
 	if s := os.Getenv("VERIF_SEED"); s != "" {
 		seed, _ = strconv.Atoi(s)
+	}
+	if *dump != "" {
+		w, err := LoadWorld(*repo, nil, *arch)
+		if err != nil {
+			fmt.Println(err)
+			os.Exit(2)
+		}
+		dumpFunc(w, *dump)
+		return
 	}
 	if *prop == "" {
 		fmt.Println("usage: trsa -prop <id> [-tier quick|thorough]")
